@@ -519,9 +519,33 @@ fn explore_set(seed: u64, steps: usize, nkeys: i32) -> Result<(), String> {
 struct XV { id: i32, exp: i32 }
 impl i_tree::ExpiredVal<i32> for XV { fn expiration(&self) -> i32 { self.exp } }
 
+// C15 on the real mask functions, all 528 x 528 pairs of bucket ranges: the places meet iff the ranges overlap; the places of
+// [a,b] tile it (every bucket of [a,b] under exactly one place, none outside); at most 8 places, none beyond the last leaf
+fn masks_exhaustive() -> Result<(), String> {
+    use i_tree::seg::heap::Heap32;
+    for a in 0u32..32 { for b in a..32 {
+        let place = Heap32::range_to_place_mask(a, b);
+        if place == 0 || place.count_ones() > 8 || place >> 63 != 0 { return Err(format!("[C15] range_to_place_mask({},{}) = {:#x}: {} places", a, b, place, place.count_ones())); }
+        if (b + 32) < 64 && place >> (b + 32) != 0 { return Err(format!("[C15,C14] range_to_place_mask({},{}) = {:#x} has a place beyond the last leaf of the range", a, b, place)); }
+        for leaf in 0u32..32 {
+            let mut node = leaf + 31; let mut on_path = ((place >> node) & 1) as u32;
+            while node > 0 { node = (node - 1) >> 1; on_path += ((place >> node) & 1) as u32; }
+            if on_path != if a <= leaf && leaf <= b { 1 } else { 0 } { return Err(format!("[C15] range_to_place_mask({},{}) = {:#x}: bucket {} lies under {} places", a, b, place, leaf, on_path)); }
+        }
+        for c in 0u32..32 { for d in c..32 {
+            let visit = Heap32::range_to_intersect_mask(c, d);
+            if (d + 32) < 64 && visit >> (d + 32) != 0 || visit >> 63 != 0 { return Err(format!("[C15,C14] range_to_intersect_mask({},{}) = {:#x} visits a place beyond the last leaf of the range", c, d, visit)); }
+            let overlap = !(b < c || d < a);
+            if ((place & visit) != 0) != overlap { return Err(format!("[C15,C03] place mask of [{},{}] = {:#x}, visit mask of [{},{}] = {:#x}: they {} although the ranges {}", a, b, place, c, d, visit, if (place & visit) != 0 { "meet" } else { "do not meet" }, if overlap { "overlap" } else { "do not overlap" })); }
+        } }
+    } }
+    Ok(())
+}
+
 fn explore_seg(seed: u64, steps: usize) -> Result<(), String> {
     use i_tree::seg::exp::{SegExpCollection, SegRange};
     use i_tree::seg::tree::SegExpTree;
+    if seed == 1 { masks_exhaustive()?; }
     let mut rng = Rng(seed.wrapping_mul(0x9E3779B97F4A7C15) | 1);
     let domains: [(i64, i64); 10] = [(0, 31), (-16, 15), (0, 127), (-1000, 2000), (5, 21), (0, 128), (-7, 25), (100, 1124), (0, (1i64 << 33) + (1i64 << 32) - 1), (-(1i64 << 40), 1i64 << 40)];
     let (lo, hi) = domains[(seed % 10) as usize];
@@ -553,7 +577,14 @@ fn explore_seg(seed: u64, steps: usize) -> Result<(), String> {
                 let mut got: Vec<i32> = if partial { t.iter_by_range(SegRange { min: qa, max: qb }, time).take(1).map(|v| v.id).collect() } else { t.iter_by_range(SegRange { min: qa, max: qb }, time).map(|v| v.id).collect() };
                 got.sort();
                 if partial { if got.iter().any(|g| !want.contains(g)) || (got.is_empty() && !want.is_empty()) { return Err(format!("[C03] {}-> partial {:?} expected one of {:?}", hist, got, want)); } }
-                else if got != want { return Err(format!("[C03{}] {}-> {:?} expected {:?}", if hist.contains("clear(); ") { ",C12" } else { "" }, hist, got, want)); }
+                else if got != want {
+                    // an expired value among the answers is C03's "nothing with expiration below t"; a missing, duplicated or
+                    // non-overlapping live value is (also) about where copies are placed and which places a query visits (C15)
+                    let expired_yielded = got.iter().any(|g| model.iter().any(|m| m.2.id == *g && m.2.exp < time));
+                    let live_wrong = { let gl: Vec<i32> = got.iter().cloned().filter(|g| !model.iter().any(|m| m.2.id == *g && m.2.exp < time)).collect(); gl != want };
+                    let _ = expired_yielded;
+                    return Err(format!("[C03{}{}] {}-> {:?} expected {:?}", if live_wrong { ",C15" } else { "" }, if hist.contains("clear(); ") { ",C12" } else { "" }, hist, got, want));
+                }
                 if whole {
                     // C16: after a fully consumed whole-domain query only copies of unexpired values are stored
                     for c in t.chunks.iter() { for e in c.buffer.iter() { if e.val.exp < time { return Err(format!("[C16] {}-> an expired copy (id {}, exp {}) is still stored", hist, e.val.id, e.val.exp)); } } }
@@ -562,7 +593,7 @@ fn explore_seg(seed: u64, steps: usize) -> Result<(), String> {
             8 => { if rng.below(4) != 0 { continue; } h!(hist, "clear(); "); t.clear(); model.clear(); if rng.below(2) == 0 { time = 0; } }
             _ => {}
         }
-        for (ci, c) in t.chunks.iter().enumerate() { for e in c.buffer.iter() { if (e.mask >> ci) & 1 != 1 { return Err(format!("[C03] {}-> chunk {} holds a copy whose mask lacks bit {}", hist, ci, ci)); } } }
+        for (ci, c) in t.chunks.iter().enumerate() { for e in c.buffer.iter() { if (e.mask >> ci) & 1 != 1 { return Err(format!("[C03,C15] {}-> chunk {} holds a copy whose mask lacks bit {}", hist, ci, ci)); } } }
     }
     Ok(())
 }
